@@ -89,6 +89,66 @@ Definition days_from_civil (y m d : Z) : Z :=
 (* ------------------------------------------------------------------------------------------ *)
 (* the report rows the writers receive                                                         *)
 
+(* --- metadata (item.cc parse_tags / set_tag) ---
+   One entry per `Key: value` note line or per name of a `:a:b:` series, in source order:
+   (overwrite_existing, key, value); value None = a bare tag.  item_t::metadata is a std::map
+   ordered by boost::ilexicographical_compare (case folded with toupper under LC_ALL=C). *)
+Definition mentry : Type := (bool * str * option str)%type.
+Definition metamap : Type := list (str * option str).
+
+(* boost is_iless compares std::toupper(c, locale) as (signed) char: ASCII letters fold to upper
+   case, bytes from 128 up are negative and sort before every ASCII character *)
+Definition lower (c : Z) : Z :=
+  let u := if (97 <=? c) && (c <=? 122) then c - 32 else c in
+  if 128 <=? u then u - 256 else u.
+
+Fixpoint ci_compare (a b : str) : comparison :=
+  match a, b with
+  | [], [] => Eq
+  | [], _ :: _ => Lt
+  | _ :: _, [] => Gt
+  | x :: a', y :: b' =>
+      match Z.compare (lower x) (lower y) with
+      | Eq => ci_compare a' b'
+      | c => c
+      end
+  end.
+
+(* set_tag: an empty string value is stored as no value; an existing key keeps its spelling and,
+   unless overwrite_existing, its value *)
+Fixpoint meta_insert (ow : bool) (key : str) (v : option str) (m : metamap) : metamap :=
+  match m with
+  | [] => [(key, v)]
+  | (k, w) :: r =>
+      match ci_compare key k with
+      | Eq => if ow then (k, v) :: r else m
+      | Lt => (key, v) :: m
+      | Gt => (k, w) :: meta_insert ow key v r
+      end
+  end.
+
+Definition norm_value (v : option str) : option str :=
+  match v with Some [] => None | _ => v end.
+
+Definition build_meta (es : list mentry) : metamap :=
+  fold_left (fun m e => meta_insert (fst (fst e)) (snd (fst e)) (norm_value (snd e)) m) es [].
+
+Fixpoint meta_find (key : str) (m : metamap) : option (option str) :=
+  match m with
+  | [] => None
+  | (k, w) :: r => match ci_compare key k with Eq => Some w | _ => meta_find key r end
+  end.
+
+Definition k_Payee : str := [80; 97; 121; 101; 101].
+
+(* post_t::get_tag of the Payee key with inheritance, as payee_from_tag reads it: the posting's own
+   valued tag, else the transaction's, else the empty string *)
+Definition payee_tag (pm xm : metamap) : str :=
+  match meta_find k_Payee pm with
+  | Some (Some v) => v
+  | _ => match meta_find k_Payee xm with Some (Some v) => v | _ => [] end
+  end.
+
 Record amt : Type := mkAmt {
   a_text  : str;          (* the amount as operator<< prints it (commodity, quantity, annotations) *)
   a_flags : str;          (* put_commodity's flags attribute: P S T D *)
@@ -103,7 +163,9 @@ Record post : Type := mkPost {
   p_account : str;        (* account->fullname() *)
   p_amount  : amt;
   p_cost    : option amt;
-  p_note    : option str
+  p_note    : option str;
+  p_meta_inline : list mentry;   (* tags of the note on the posting line itself *)
+  p_meta_later  : list mentry    (* tags of the note lines that follow the posting *)
 }.
 
 Record xact : Type := mkXact {
@@ -113,6 +175,7 @@ Record xact : Type := mkXact {
   x_code  : option str;
   x_payee : str;
   x_note  : option str;
+  x_meta  : list mentry;  (* tags of the transaction's own notes (header line, lines before the first posting) *)
   x_posts : list post     (* the postings of this transaction that the report displays *)
 }.
 
@@ -120,7 +183,25 @@ Record xact : Type := mkXact {
 Definition eff_state (x : xact) (p : post) : Z :=
   if p_state p =? 0 then x_state x else p_state p.
 
+Definition is_nil {A} (l : list A) : bool := match l with [] => true | _ => false end.
+
 Definition opt_str (o : option str) : str := match o with Some s => s | None => [] end.
+
+(* post.cc payee_from_tag at report time: all of the posting's tags are known *)
+Definition payee_from_tag (x : xact) (p : post) : str :=
+  payee_tag (build_meta (p_meta_inline p ++ p_meta_later p)) (build_meta (x_meta x)).
+
+(* textual.cc:1823-1825: at the end of the posting LINE, payee_from_tag() is evaluated and, when
+   not empty, stored with set_payee; only the tags of the transaction and of the posting line itself
+   exist at that moment *)
+Definition payee_at_parse (x : xact) (p : post) : str :=
+  payee_tag (build_meta (p_meta_inline p)) (build_meta (x_meta x)).
+
+(* post.cc post_t::payee(): the stored payee, else the tag, else the transaction's payee *)
+Definition post_payee (x : xact) (p : post) : str :=
+  if is_nil (payee_at_parse x p) then
+    (if is_nil (payee_from_tag x p) then x_payee x else payee_from_tag x p)
+  else payee_at_parse x p.
 
 (* ------------------------------------------------------------------------------------------ *)
 (* emacs (emacs.cc:41-111, emacs.h:69-73)                                                      *)
@@ -197,7 +278,7 @@ Definition field_value (x : xact) (p : post) (f : csv_field) : str :=
   match f with
   | FDate => fmt_date (x_year x) (x_month x) (x_day x)
   | FCode => opt_str (x_code x)
-  | FPayee => x_payee x
+  | FPayee => post_payee x p
   | FAccount => display_account p
   | FCommodity => opt_str (a_sym (p_amount p))
   | FQuantity => a_qty (p_amount p)
@@ -244,8 +325,6 @@ Inductive ptree : Type :=
 | Node (data : str) (attrs : list (str * str)) (kids : list (str * ptree)).
 
 Definition leaf (data : str) : ptree := Node data [] [].
-
-Definition is_nil {A} (l : list A) : bool := match l with [] => true | _ => false end.
 
 Definition indent_str (n : nat) : str := repeat 32 (2 * n).
 
@@ -309,6 +388,25 @@ Definition k_accounts : str := [97;99;99;111;117;110;116;115].
 Definition k_commodities : str := [99;111;109;109;111;100;105;116;105;101;115].
 (* addresses (account id / ref) are canonicalised to @ on both sides *)
 Definition k_addr : str := [64].
+Definition k_metadata : str := [109;101;116;97;100;97;116;97].
+Definition k_value : str := [118;97;108;117;101].
+Definition k_key : str := [107;101;121].
+Definition k_string : str := [115;116;114;105;110;103].
+Definition k_tag : str := [116;97;103].
+
+(* item.cc put_metadata: in map order, a valued tag is <value key=K><string>V</string></value>
+   (string values only: `Key:: expr` is not generated), a bare tag <tag>K</tag> *)
+Definition put_metadata (m : metamap) : ptree :=
+  Node [] []
+    (map (fun kv =>
+            match snd kv with
+            | Some v => (k_value, Node [] [(k_key, fst kv)] [(k_string, leaf v)])
+            | None => (k_tag, leaf (fst kv))
+            end) m).
+
+(* the <metadata> child exists as soon as the item has any tag *)
+Definition metadata_kids (m : metamap) : list (str * ptree) :=
+  match m with [] => [] | _ => [(k_metadata, put_metadata m)] end.
 
 Definition state_attr (st : Z) : list (str * str) :=
   if st =? 1 then [(k_state, k_cleared)]
@@ -330,10 +428,12 @@ Definition put_amount_kids (a : amt) : list (str * ptree) :=
 Definition put_post (x : xact) (p : post) : ptree :=
   Node []
     (state_attr (eff_state x p) ++ (if p_virtual p =? 0 then [] else [(k_virtual, k_true)]))
-    ([(k_account, Node [] [(k_ref, k_addr)] [(k_name, leaf (p_account p))]);
+    ((if is_nil (payee_from_tag x p) then [] else [(k_payee, leaf (payee_from_tag x p))]) ++
+     [(k_account, Node [] [(k_ref, k_addr)] [(k_name, leaf (p_account p))]);
       (k_post_amount, Node [] [] [(k_amount, Node [] [] (put_amount_kids (p_amount p)))])] ++
      (match p_cost p with Some c => [(k_cost, Node [] [] (put_amount_kids c))] | None => [] end) ++
-     (match p_note p with Some n => [(k_note, leaf n)] | None => [] end)).
+     (match p_note p with Some n => [(k_note, leaf n)] | None => [] end) ++
+     metadata_kids (build_meta (p_meta_inline p ++ p_meta_later p))).
 
 (* xact.cc put_xact + the <postings> child added by format_ptree::flush *)
 Definition put_xact (x : xact) : ptree :=
@@ -343,6 +443,7 @@ Definition put_xact (x : xact) : ptree :=
      (match x_code x with Some c => [(k_code, leaf c)] | None => [] end) ++
      [(k_payee, leaf (x_payee x))] ++
      (match x_note x with Some n => [(k_note, leaf n)] | None => [] end) ++
+     metadata_kids (build_meta (x_meta x)) ++
      [(k_postings, Node [] [] (map (fun p => (k_posting, put_post x p)) (x_posts x)))]).
 
 (* the <transactions> element of the document (indent level 1) *)
